@@ -16,7 +16,7 @@ tie          : (H) real InnerPlume/OuterPlume/PlumeParticle objects, real smp.de
                yi / yo / particles are sent to the Lean driver, which recomputes both vectors (slot by slot,
                TOL gen_vs_source).  ANY slot-wise disagreement is a broken obligation.
 oracle       : the harness computes, independently of the objects, the ambient values at the depth of the call
-               (profile.get_values(z, ...), seawater.density) and the derived variables of both plumes from the
+               (own interpolation, by name, of the raw table handed to ambient.Profile; seawater.density) and the derived variables of both plumes from the
                two STATE vectors (u=J/Q, b, s=S/Q, T=H/(rho_r cp Q), c=C/Q; ambient substitution when a plume is
                absent); the attributes of the real objects are compared with them, and the identities are
                evaluated with the ORACLE values on the right-hand side, on the vectors the real code returned.
@@ -48,9 +48,10 @@ META = {
             'on every case; any disagreement is a broken obligation); real arithmetic as stand-in for doubles. Read back '
             'from the real objects, not verified: the closures shear_entrainment (alpha_s), cp_model (Ep), the void '
             'fraction / buoyancy (Xi, Fb) and the dbm particle properties (us, A, beta, Cs, rho_p, beta_T) — physical '
-            'laws the conservation identities do not depend on. seawater.density and profile.get_values for T, S, P are used by the '
-            'oracle as given (C13, C07); ambient CONCENTRATIONS are interpolated by the harness itself, by name, from the raw '
-            'table it handed to ambient.Profile (columns stored in another order than requested, supersets, missing names). The momentum, age and position slots are transcribed and compared but the property '
+            'laws the conservation identities do not depend on. seawater.density is used by the oracle as given (C13). ALL ambient reference values (T, S, P and the concentrations) '
+            'are interpolated by the harness itself, by name, from the raw table it handed to ambient.Profile (pressure = own '
+            'hydrostatic integration; chemical columns stored in another order than requested, supersets, missing names); the '
+            'Profile objects are built with err=0, stabilize_profile=False so that they interpolate exactly those nodes. The momentum, age and position slots are transcribed and compared but the property '
             'makes no claim about them. STATED SCOPE LIMIT: all soluble particle classes of a scenario share one composition '
             'list — a documented precondition of tamoc ("All particles have the same composition", dispersed_phases.py '
             'l.1034; derivs_inner indexes beta[j], Cs[j] of every soluble particle by the position j in the common list). '
@@ -146,7 +147,7 @@ def draw_outer(rng, sc, z, yi_state, nchems):
     Q = -Qi * 10 ** rng.uniform(-1.5, 1.2)
     u = -10 ** rng.uniform(-3, 0)
     J = Q * u
-    Ta, Sa = [float(v) for v in sc.profile.get_values(z, ['temperature', 'salinity'])]
+    Ta, Sa = [S.table_value(sc.table, z, nm) for nm in ('temperature', 'salinity')]
     if rng.random() < 0.6:
         s = min(max(Sa + rng.gauss(0., 0.5), 0.), 42.)
         T = min(max(Ta + rng.gauss(0., 1.5), 271.5), 310.)
@@ -276,7 +277,9 @@ def oracle(sc, z, y_i, y_o, p):
     top-hat u = J/Q, b_i = Q/sqrt(pi J), b_o = sqrt(Q^2/(pi J) + b_i^2), s = S/Q, T = H/(rho_r cp Q), c = C/Q;
     a plume that does not exist (Q_i <= 0, Q_o >= 0) holds u = b = 0 and the ambient s, T, c, rho)"""
     from tamoc import seawater
-    Ta, Sa, P = [float(v) for v in sc.profile.get_values(float(z), ['temperature', 'salinity', 'pressure'])]
+    # T, S, P by name from the raw table the harness handed to ambient.Profile (own interpolation; the pressure column is
+    # the harness's own hydrostatic integration) — not through profile.get_values
+    Ta, Sa, P = [S.table_value(sc.table, z, nm) for nm in ('temperature', 'salinity', 'pressure')]
     # ambient concentrations BY NAME from the raw table the harness handed to ambient.Profile (own interpolation):
     # independent of the profile object's name -> column bookkeeping
     ca = [S.table_value(sc.table, z, str(X)) for X in sc.chem_names]
